@@ -221,6 +221,26 @@ var c06Families = []c06Family{
 		ctx.Eval(id)
 		return fw.Result{Verdict: fw.Held}
 	}},
+	{"directive-hostile-strings", func(tier string) int { return len(c06Directives) * len(gen.HostileStrings()) }, func(ctx *fw.Ctx, k int) fw.Result {
+		// every directive over every hostile string (every byte value alone and between letters, broken and cut-off
+		// UTF-8 sequences, long runs), with arguments in range: each must return
+		hs := gen.HostileStrings()
+		dn := c06Directives[k%len(c06Directives)]
+		dir := ref.Dir{Name: dn}
+		switch dn {
+		case "truncate", "insertWordBreaks":
+			dir.Args = []ref.Expr{&ref.Lit{V: ref.Int(int64(1 + k%7))}}
+		}
+		t := &ref.Template{Name: "main", Params: []ref.ParamDecl{{Name: "v", Optional: true}}}
+		t.Body = []ref.Node{&ref.Print{E: &ref.DataRef{Name: "v"}, Dirs: []ref.Dir{dir}}}
+		f := &ref.File{Name: "f.soy", Namespace: "t", Templates: []*ref.Template{t}}
+		files := bundleSources(&ref.Bundle{Files: []*ref.File{f}}, ref.Layout{})
+		d := map[string]ref.Value{"v": ref.Str(hs[(k/len(c06Directives))%len(hs)])}
+		ctx.Cell("dir-hostile:" + dn)
+		totalRender(ctx, files, nil, "t.main", d, nil, k%3 == 0)
+		ctx.Eval(fmt.Sprintf("dh:%s:%d", dn, k/len(c06Directives)))
+		return fw.Result{Verdict: fw.Held}
+	}},
 	{"hostile-data", func(tier string) int {
 		if tier == "thorough" {
 			return 1000000
